@@ -324,7 +324,7 @@ func (in *Interp) exec(s Stmt, sc *env) (ctl, Value) {
 				lsc.vars[s.V] = cur
 			}
 			in.Iterations++
-			c, v := in.block(s.Body, lsc, false)
+			c, v := in.block(s.Body, lsc, true)
 			if c == ctlBreak {
 				break
 			}
@@ -341,7 +341,7 @@ func (in *Interp) exec(s Stmt, sc *env) (ctl, Value) {
 				lsc.vars[s.V] = v
 			}
 			in.Iterations++
-			c, rv := in.block(s.Body, lsc, false)
+			c, rv := in.block(s.Body, lsc, true)
 			in.step()
 			if c == ctlBreak {
 				return true, ctlNone, nil
@@ -683,6 +683,9 @@ func (in *Interp) binary(e *Binary, sc *env) Value {
 		c := cmpRunes(a, b)
 		switch e.Op {
 		case "+":
+			if len(a)+len(b) > 200000 {
+				in.fail("fuel", "string too large")
+			}
 			return a + b
 		case "<":
 			return c < 0
@@ -697,6 +700,9 @@ func (in *Interp) binary(e *Binary, sc *env) Value {
 		switch e.Op {
 		case "+":
 			b := r.(*ArrV)
+			if len(a.E)+len(b.E) > 20000 {
+				in.fail("fuel", "array too large")
+			}
 			out := &ArrV{E: make([]Value, 0, len(a.E)+len(b.E))}
 			out.E = append(out.E, a.E...)
 			out.E = append(out.E, b.E...)
@@ -706,7 +712,7 @@ func (in *Interp) binary(e *Binary, sc *env) Value {
 			if math.IsNaN(n) || math.IsInf(n, 0) || n != math.Trunc(n) || n < 0 {
 				in.fail("panic:badrepetition", fmt.Sprint(n))
 			}
-			if n*float64(len(a.E)) > 100000 {
+			if n*float64(size(a)) > 20000 {
 				in.fail("fuel", "repetition too large")
 			}
 			out := &ArrV{}
@@ -717,6 +723,27 @@ func (in *Interp) binary(e *Binary, sc *env) Value {
 		}
 	}
 	panic("model error: bad binary operation " + e.Op)
+}
+
+// size counts the values in v, nested ones included.
+func size(v Value) int {
+	switch v := v.(type) {
+	case *ArrV:
+		n := 1
+		for _, e := range v.E {
+			n += size(e)
+		}
+		return n
+	case *MapV:
+		n := 1
+		for _, e := range v.M {
+			n += size(e)
+		}
+		return n
+	case *AnyV:
+		return size(v.V)
+	}
+	return 1
 }
 
 // FormatNum is how numbers print: shortest decimal form without exponent.
